@@ -29,8 +29,11 @@
     * hence building from the text equals building from the traversal's events directly
       (`roundtrip_text_elimination`): text is eliminated from the round trip;
     * a graph built from a conformant history is well-formed, so the traversal accepts it (C10, C11).
-  What is not a theorem: that the loop formulation `walk` and the recursive `walkRec` emit the same events
-  (compared on every run), that `walkRec` never runs out of fuel on a well-formed graph, and D17.  The
+  `roundtrip_walk` states the same about `walk` itself — the explicit-stack loop that mirrors
+  src/walk/walk.rs: Purr/Lemmas/LoopRecL.lean proves that on a well-formed graph the loop ends with `ok` iff
+  the recursive traversal succeeds, with the same events (`walk_eq_walkRec`, `walkRec_of_walk_ok`), and
+  Purr/Lemmas/WalkPanicL.lean that the loop terminates and reaches no internal panic site.  The only case
+  left out is D17 (the pool exhausted; `walk_ok_or_pool_exhausted`).  The
   isomorphism is additionally checked on every run by the oracle (walk → write → read → build on the real
   code, then an isomorphism test along the traversal order).  Known finding D17 (more than 99
   simultaneously open ring closures panic) and D19 (the empty adjacency list is written as the empty string,
@@ -38,9 +41,11 @@
 -/
 import Purr.Props.C09
 import Purr.Props.C10
+import Purr.Props.C11
 import Purr.Lemmas.RtcCor
 import Purr.Lemmas.RtcRing
 import Purr.Lemmas.NormL
+import Purr.Lemmas.LoopRecL
 namespace Purr.C01
 open Purr Purr.Spec
 
@@ -168,6 +173,26 @@ theorem walkRecL_nonempty (g : Graph) (a : Atom) (rest : Graph) (hg : g = a :: r
       · simp only [Option.some.injEq, Prod.mk.injEq] at hc
         obtain ⟨rfl, _⟩ := hc
         simp
+
+/-- THE ROUND TRIP PRESERVES THE CONSTITUTION, stated about `walk` itself (the loop that mirrors
+    src/walk/walk.rs): for every well-formed adjacency list with at least one atom on which the traversal
+    ends with `ok` — by C11/C06 the only alternative is the exhausted ring-number pool, known finding D17 —
+    the text written from the traversal's events is accepted by the reader and builds a graph isomorphic to
+    the original. -/
+theorem roundtrip_walk (g : Graph) (hw : WellFormed g) (hok : (walk g).2 = .ok) (hne : (walk g).1 ≠ []) :
+    ∃ t g' π, write? (walk g).1 = some t ∧ (read t).2 = .ok ∧ build? (read t).1 = some (.ok g') ∧ Iso g g' π := by
+  obtain ⟨es, ord, hr, hev⟩ := walkRec_of_walk_ok g hw hok
+  have hne' : es ≠ [] := by intro e; subst e; simp at hev; exact hne hev
+  obtain ⟨t, g', h1, h2, h3, h4⟩ := roundtrip g hw es ord hr hne'
+  exact ⟨t, g', pos ord, by rw [← hev]; exact h1, h2, h3, h4⟩
+
+/-- every well-formed adjacency list: the traversal ends with `ok` or with the one panic of D17 -/
+theorem walk_ok_or_pool_exhausted (g : Graph) (hw : WellFormed g) :
+    (walk g).2 = .ok ∨ (walk g).2 = .panic "join_pool.rs:rnum" := by
+  cases hv : (walk g).2 with
+  | ok => exact Or.inl rfl
+  | err e => exact absurd hv (C11.wellformed_not_rejected g hw e)
+  | panic p => rw [walk_panic_only_rnum g p hv]; exact Or.inr rfl
 
 /-! non-vacuity of stage 3: a fused bicyclic graph with a stereocentre, numbered out of traversal order -/
 def exampleRings : Graph :=
